@@ -213,3 +213,105 @@ Example C13_findfile_ex :
   = Ok (Found 1 [[97]%N; s_2019]) /\
   has_slash s_foo = false /\ has_suffix s_foo DOT_YANG = false.
 Proof. vm_compute. repeat split; reflexivity. Qed.
+
+(* ============================ (c) include = inline (core model) ====================== *)
+(* On the core resolver model (Model/Schema.v: module_dir with the mergedSubmodule bookkeeping,
+   find_grouping_mod's include walk, to_entry, module_entry).  [unsplit SC m] moves the body
+   statements, augments and deviations of every submodule reachable from m through includes
+   into m, [unsplit_schema SC m] replaces m and empties those submodules.
+   Proved in full for DIRECT includes ([flat_family]: the included submodules include nothing
+   themselves, belong to m, share its prefix, every uses name is local -- no import prefix --
+   and a submodule uses only groupings it declares itself).  NOT covered by these theorems:
+   nested includes (metamorphic check only), uses of imported groupings (C06), typedefs
+   (Model/Types.v, C09) and identities (Model/Identity.v, C11) of submodules, and the effect of
+   the moved augments/deviations on the final forest (Process), which the metamorphic check of
+   check/props/c13.py compares on the implementation. *)
+From GY Require Model.Schema Proofs.IncludeProofs.
+
+Section PartC.
+Import Schema IncludeProofs.
+
+(* the module's tree (its Dir, child by child, in the same order) is the same whether its
+   statements are spread over submodules or written in the module; so is the error flag,
+   duplicates included -- except that an erroneous deviate of a submodule is reported on the
+   submodule's entry when split and on the module's when unsplit *)
+Theorem C13_include_module_entry : forall SC ic m subs, flat_family SC m subs ->
+  fst (module_entry (unsplit_schema SC m) ic (unsplit SC m)) = fst (module_entry SC ic m) /\
+  snd (module_entry (unsplit_schema SC m) ic (unsplit SC m)) =
+    snd (module_entry SC ic m) || existsb devs_err (reachable_subs SC m).
+Proof. exact module_entry_unsplit. Qed.
+
+Theorem C13_include_unsplit_shape : forall SC m subs, flat_family SC m subs ->
+  reachable_subs SC m = subs /\
+  find_module (unsplit_schema SC m) (m_name m) = Some (unsplit SC m) /\
+  m_includes (unsplit SC m) = [] /\
+  map m_name (unsplit_schema SC m) = map m_name SC.
+Proof. intros SC m subs FF. split; [exact (reachable_flat SC m subs FF)|exact (unsplit_schema_shape SC m subs FF)]. Qed.
+
+(* a uses statement anywhere in the family (any part X, any nesting [inner] of X's statements)
+   finds the same grouping statement before and after unsplitting *)
+Theorem C13_include_grouping_lookup : forall SC m subs, flat_family SC m subs ->
+  forall X inner u,
+  In X (m :: subs) -> Forall (fun sc => okb (uses_ok m subs X) sc = true) inner ->
+  uses_ok m subs X u = true ->
+  match FindGrouping SC {| g_mod := X; g_scopes := inner ++ [m_body X] |} u,
+        FindGrouping (unsplit_schema SC m)
+                     {| g_mod := unsplit SC m; g_scopes := inner ++ [m_body (unsplit SC m)] |} u with
+  | None, None => True
+  | Some (gid, gb, _), Some (gid', gb', _) => gid = gid' /\ gb = gb'
+  | _, _ => False
+  end.
+Proof. exact uses_lookup_unsplit. Qed.
+
+(* the augments of all parts arrive at the unsplit module with the same body entries and errors *)
+Theorem C13_include_augments : forall SC m subs, flat_family SC m subs ->
+  map (fun a => (a_path a, a_dir a, a_err a)) (module_augs (unsplit_schema SC m) (unsplit SC m)) =
+  flat_map (fun X => map (fun a => (a_path a, a_dir a, a_err a)) (module_augs SC X)) (m :: subs).
+Proof. exact module_augs_unsplit. Qed.
+
+(* non-vacuity: module m (prefix p) with a container using p:g1 of submodule s1 and a top-level
+   uses of g2 of s2; s1 declares g1 (which uses its own h) and augments /c; s2 repeats leaf l1 of
+   s1, so the error flag is set on both sides *)
+Definition c_str (l : list nat) : Schema.str := map N.of_nat l.
+Definition c_string := c_str [115;116;114;105;110;103].
+Definition c_leaf (n : list nat) := DLeaf (c_str n) c_string TSUnset TSUnset None None.
+Definition c_m : module :=
+  {| m_name := c_str [109]; m_prefix := c_str [112]; m_ns := c_str [117]; m_belongs := None;
+     m_imports := []; m_includes := [c_str [115;49]; c_str [115;50]];
+     m_body := [DContainer (c_str [99]) TSUnset [DUses (c_str [112;58;103;49]); c_leaf [97]];
+                DGrouping 1 (c_str [103;48]) [c_leaf [120]]; DUses (c_str [103;50])];
+     m_augments := []; m_deviations := [] |}.
+Definition c_s1 : module :=
+  {| m_name := c_str [115;49]; m_prefix := c_str [112]; m_ns := []; m_belongs := Some (c_str [109]);
+     m_imports := []; m_includes := [];
+     m_body := [DGrouping 2 (c_str [103;49]) [c_leaf [121]; DUses (c_str [104])];
+                DGrouping 3 (c_str [104]) [c_leaf [122]]; c_leaf [108;49]];
+     m_augments := [(c_str [47;99], [c_leaf [98]; DUses (c_str [104])])]; m_deviations := [] |}.
+Definition c_s2 (dup : bool) : module :=
+  {| m_name := c_str [115;50]; m_prefix := c_str [112]; m_ns := []; m_belongs := Some (c_str [109]);
+     m_imports := []; m_includes := [];
+     m_body := [DGrouping 4 (c_str [103;50]) [c_leaf [119]]; c_leaf (if dup then [108;49] else [108;50])];
+     m_augments := []; m_deviations := [] |}.
+Definition c_SC (dup : bool) : schema := [c_s2 dup; c_m; c_s1].
+
+Example C13_include_ex : forall dup, flat_family (c_SC dup) c_m [c_s1; c_s2 dup].
+Proof.
+  intros dup. constructor.
+  - destruct dup; vm_compute; repeat constructor; simpl; intuition discriminate.
+  - right. left. reflexivity.
+  - reflexivity.
+  - destruct dup; vm_compute; repeat constructor; simpl; intuition discriminate.
+  - constructor; [|constructor; [|constructor]]; (split; [simpl; intuition|repeat split]).
+  - repeat constructor.
+  - destruct dup; repeat constructor.
+Qed.
+
+Example C13_include_ex_values :
+  snd (module_entry (c_SC false) false c_m) = false /\
+  snd (module_entry (c_SC true) false c_m) = true /\
+  module_entry (unsplit_schema (c_SC true) c_m) false (unsplit (c_SC true) c_m) = module_entry (c_SC true) false c_m /\
+  option_map (fun d => map fst d) (e_dir (fst (module_entry (c_SC false) false c_m))) =
+    Some [c_str [99]; c_str [119]; c_str [108;49]; c_str [108;50]].
+Proof. vm_compute. repeat split; reflexivity. Qed.
+
+End PartC.
